@@ -508,8 +508,85 @@ def r7_component_writeback(ctx):
         raise AnalysisError(f"expected the column, index and multi-index backends to delegate to super().validate; found {n}")
 
 
+def _may_return_none(h) -> bool:
+    """the helper has a `return <value>` and also a path that ends without one (falls off the end / bare return)"""
+    rets = [r for r in walk_no_nested(h.node) if isinstance(r, ast.Return)]
+    if not any(r.value is not None and not (isinstance(r.value, ast.Constant) and r.value.value is None) for r in rets):
+        return False
+    if any(r.value is None or (isinstance(r.value, ast.Constant) and r.value.value is None) for r in rets):
+        return True
+    cfg = cfg_of(h.node)
+    for p_, lab in cfg.pred[cfg.exit.id]:
+        if lab not in ("return", "fin-return"):
+            return True
+    return False
+
+
+def r8_optional_result_stored(ctx):
+    """A helper of a validate function that returns the parsed object on success and falls off the end (None) when it
+    has collected an error instead - its result may only be stored into / become the working object under a test that it
+    is not None.  Otherwise a failing check in lazy mode overwrites the parsed column (or the whole working object) with
+    None, and validate returns data the schema rejects."""
+    from ..util import path_condition, same_module_helpers
+    ix = ctx.ix
+    n = 0
+    for bc in schema_backend_classes(ix):
+        for f in bc.methods.get("validate", []):
+            if "pyspark" in f.module.path:
+                continue
+            helpers = {h.name: h for h in same_module_helpers(ix, f) if h is not f and _may_return_none(h)}
+            if not helpers:
+                continue
+            data = next((p for p in f.positional[1:3] if p in ("check_obj", "obj")), None)
+            cfg = cfg_of(f.node)
+            opt = {}     # local name -> helper whose optional result it holds
+            for st in function_stmts(f):
+                if isinstance(st, ast.Assign) and isinstance(st.value, ast.Call) and callee_last(st.value) in helpers and len(st.targets) == 1 \
+                        and isinstance(st.targets[0], ast.Name):
+                    opt[st.targets[0].id] = (helpers[callee_last(st.value)], st)
+            # the helper's result stored directly: `check_obj[col] = helper(...)`
+            for st in function_stmts(f):
+                if isinstance(st, ast.Assign) and isinstance(st.value, ast.Call) and callee_last(st.value) in helpers and len(st.targets) == 1 \
+                        and isinstance(st.targets[0], (ast.Subscript, ast.Attribute)):
+                    root = st.targets[0]
+                    while isinstance(root, (ast.Attribute, ast.Subscript)):
+                        root = root.value
+                    if isinstance(root, ast.Name) and root.id == data:
+                        n += 1
+                        h = helpers[callee_last(st.value)]
+                        ctx.ob("R8", f, f"{f.short}: the optional result of {h.name}() is used only when it is not None", False,
+                               f"{h.name}() returns None after collecting an error (lazy mode); `{txt(st)[:70]}` stores it into the working object without a "
+                               "None test: a failing check turns the parsed column into None and validate returns it", f.loc(st))
+            for name, (h, st0) in sorted(opt.items()):
+                sinks = []
+                if name == data:
+                    sinks.append((st0, f"`{txt(st0)[:60]}` replaces the working object"))
+                for st in function_stmts(f):
+                    if isinstance(st, ast.Assign) and isinstance(st.value, ast.Name) and st.value.id == name and name != data:
+                        t = st.targets[0]
+                        root = t
+                        while isinstance(root, (ast.Attribute, ast.Subscript)):
+                            root = root.value
+                        if isinstance(root, ast.Name) and root.id == data:
+                            sinks.append((st, f"`{txt(st)[:60]}` stores it into the working object"))
+                    if isinstance(st, ast.Return) and isinstance(st.value, ast.Name) and st.value.id == name and name != data:
+                        sinks.append((st, f"`{txt(st)}` returns it"))
+                for st, what in sinks:
+                    n += 1
+                    node = cfg.node_of(st)
+                    pc = path_condition(cfg, node.id, keep=lambda t, nn: t.replace(" ", "") in (f"{name}isNone", f"{name}isnotNone")) if node is not None else ((), frozenset())
+                    guarded = bool(pc[0]) and st is not st0
+                    kind = "becomes the working object" if st is st0 else ("is returned" if isinstance(st, ast.Return) else f"is stored into `{txt(st.targets[0])[:30]}`")
+                    ctx.ob("R8", f, f"{f.short}: the optional result of {h.name}() {kind} only when it is not None", guarded,
+                           "tested for None first" if guarded else
+                           f"{h.name}() returns None after collecting an error (lazy mode); {what} without a None test: a failing check turns the "
+                           "parsed column / the working object into None and validate returns it", f.loc(st))
+    ctx.stats["optional_helper_results"] = n
+
+
 def run(ctx):
     r4_filter_set(ctx)
+    r8_optional_result_stored(ctx)
     r7_component_writeback(ctx)
     r6_missing_column_runs(ctx)
     r5_container_defaults(ctx)
